@@ -4,10 +4,14 @@ mod glue;
 mod model;
 
 mod c01;
+mod c02;
+mod child;
+mod c03;
 mod c09;
 mod c10;
 mod c11;
 mod c12;
+mod c13;
 mod pat;
 
 use engine::*;
@@ -27,9 +31,12 @@ pub struct Prop {
 fn props() -> Vec<Prop> {
     vec![
         Prop { id: "C01", run: c01::run, replay: c01::replay, meta: c01::meta, workers: (1, 16), also_release: false },
+        Prop { id: "C02", run: c02::run, replay: c02::replay, meta: c02::meta, workers: (8, 16), also_release: false },
+        Prop { id: "C03", run: c03::run, replay: c03::replay, meta: c03::meta, workers: (1, 16), also_release: false },
         Prop { id: "C09", run: c09::run, replay: c09::replay, meta: c09::meta, workers: (1, 8), also_release: true },
         Prop { id: "C11", run: c11::run, replay: c11::replay, meta: c11::meta, workers: (4, 16), also_release: true },
         Prop { id: "C12", run: c12::run, replay: c12::replay, meta: c12::meta, workers: (1, 16), also_release: false },
+        Prop { id: "C13", run: c13::run, replay: c13::replay, meta: c13::meta, workers: (1, 16), also_release: false },
         Prop { id: "C10", run: c10::run, replay: c10::replay, meta: c10::meta, workers: (1, 16), also_release: false },
     ]
 }
@@ -118,8 +125,9 @@ fn main() {
     }
 }
 
-fn child(name: &str, _args: &[String]) -> i32 {
+fn child(name: &str, args: &[String]) -> i32 {
     match name {
+        "c02" => child::child_main::<c02::History>(args, c02::child_check),
         _ => {
             eprintln!("unknown child {}", name);
             2
